@@ -143,7 +143,7 @@ impl Check for C12 {
             let mut failed = false;
             let mut opname = "";
             let mut other_changed: Option<String> = None;
-            let mut partial = false;
+            let partial;
             match op {
                 Op::Insert(i) => {
                     if f.insert(uni[idx(*i, uni.len())]).is_err() {
